@@ -476,7 +476,39 @@ func fineTouchThenScan(seed uint64) []lib.Case {
 	return []lib.Case{cr.finish("touch-then-scan#"+strconv.FormatUint(seed, 10), seed, nil, nil)}
 }
 
+// A topic is paused while its pump is busy handing a message on: the pause must still take
+// effect (Topic.doPause waits for the pump); messages published after the acknowledged
+// pause stay in the topic.
+func finePauseWhilePumpBusy(seed uint64) []lib.Case {
+	cr := newFineCase(seed, 10)
+	cr.opCreateTopic(1)
+	cr.opCreateChan(1, 1)
+	reached, release := nsqd.VerifArmPark("topicpump:have-msg", 1)
+	ids, total, now := cr.rawPub(1, 1)
+	ok := waitReached(reached, 3*time.Second)
+	cr.tag(fmt.Sprintf("pump-parked=%v", ok))
+	cr.ev(fmt.Sprintf("EOp (OPub 1 false [%s]%%N %d 0%%Z %s) ROk", strings.Join(ids, ";"), total, z(now)))
+	pnow := cr.now()
+	done := make(chan int, 1)
+	go func() { done <- cr.post("/topic/pause", url.Values{"topic": {tname(1)}}, nil) }()
+	time.Sleep(100 * time.Millisecond)
+	release()
+	code := <-done
+	if code == 200 {
+		cr.tpaused[1] = true
+	}
+	cr.tag("pause-topic:true")
+	cr.ev(fmt.Sprintf("EOp (OPauseTopic 1 true %s) %s", z(pnow), httpResp(code)))
+	cr.nontriv = true
+	cr.after()
+	cr.opPub(1, 2, false, false)
+	cr.opPub(1, 1, false, true)
+	cr.opPauseTopic(1, false)
+	return []lib.Case{cr.finish("pause-vs-pump#"+strconv.FormatUint(seed, 10), seed, nil, nil)}
+}
+
 var fineScenarios = map[string]func(uint64) []lib.Case{
+	"pause-vs-pump":         finePauseWhilePumpBusy,
 	"touch-then-scan":       fineTouchThenScan,
 	"deliver-vs-disconnect": fineDisconnectWhileDelivering,
 	"exit-vs-timeout-scan":  func(seed uint64) []lib.Case { return fineExitWhileScanning(seed, true) },
@@ -493,7 +525,7 @@ var fineScenarios = map[string]func(uint64) []lib.Case{
 var fineByProfile = map[string][]string{
 	"c01": {"pump-vs-sub", "deliver-vs-disconnect"},
 	"c08": {"deliver-vs-empty", "sub-vs-topic-delete", "fin-vs-empty"},
-	"c03": {"fin-vs-empty", "deliver-vs-empty"},
+	"c03": {"fin-vs-empty", "deliver-vs-empty", "pause-vs-pump"},
 	"c13": {"fin-vs-empty", "deliver-vs-empty"},
 	"c02": {"deliver-vs-disconnect", "touch-then-scan"},
 	"c04": {"touch-then-scan"},
